@@ -4,7 +4,7 @@
    compared with what the implementation produced.  Extracted separately from Check/Run.v so that the specification
    checker keeps working when the translated model does not compile. *)
 From Coq Require Import ZArith List Bool Arith.
-From SpadeV Require Import Num.Decode Num.Decode2 Geom.Pred Obs.State Obs.Spec Vmap.Model Dcel.Raw Gen.DcelOps Tri.Legalize Tri.Insert Tri.Locate Tri.InsertLine Obs.LineSpec Tri.LineIter Tri.Remove Check.Codes Check.Run.
+From SpadeV Require Import Num.Decode Num.Decode2 Geom.Pred Obs.State Obs.Spec Vmap.Model Dcel.Raw Gen.DcelOps Tri.Legalize Tri.Insert Tri.Locate Tri.InsertLine Obs.LineSpec Tri.LineIter Tri.Remove Query.NatNeighbor Check.Codes Check.Run.
 Import ListNotations.
 
 Definition dcel_eqb (a b : dcel) : bool :=
@@ -329,6 +329,48 @@ Definition check_lrm_model (cdt : bool) (p n : obs) (x y : Z) (res : list Z) : l
   end.
 
 
+(* ---- NaturalNeighbor::get_weights (nnw) / Barycentric::get_weights (bary): the SEQUENCE of vertex handles in the result vector must be the
+   model's (Query/NatNeighbor.v) for an answer of the locate model.  The weights themselves are judged by Check/Run.v `check_weights`
+   within a tolerance.
+   Which answers of locate: the harness runs a warm-up query at the position of vertex 0 on the same triangulation, so with the
+   LastUsedVertexHintGenerator (`last`) the hint of the judged query is vertex 0, and on inputs whose floating-point squared distances are
+   exact (`line_exact`) the location is THE answer of Tri/Locate.v's locate_with_hint from vertex 0 -- no choice is left (in particular the
+   direction of the edge reported for a position on an edge is fixed).  With the hierarchy generators, or inexact distances, the location is
+   the locate model's answer from some start vertex.  Degenerate states: locate is deterministic (Tri/LineIter.v). ---- *)
+Fixpoint weight_vertices (n : nat) (l : list Z) : option (list Z) :=
+  match n, l with
+  | O, _ => Some []
+  | S n', v :: _ :: t => match weight_vertices n' t with Some r => Some (v :: r) | None => None end
+  | S _, _ => None
+  end.
+Definition weight_loc_candidates (c : cfg) (p : obs) (pts : list pnt) (allp : list pnt) (em : Z) (dd : dcel) (q : pnt) : list lstart :=
+  if (1 <? nF p) && (c_hint c =? K_last)%Z && line_exact (c_f32 c) allp em
+  then match lstart_of_lres (locate_with_hint pts dd q 0) with Some s => [s] | None => [] end
+  else line_start_candidates p pts dd q.
+Definition check_weights_model (c : cfg) (p : obs) (natural : bool) (args res : list Z) : list (tag * bool) :=
+  match args, res with
+  | [x; y], n :: rest =>
+    (* query coordinates outside the range that spade validates for vertices (non-zero magnitude below 2^-142, above 2^201): the `robust`
+       predicates under/overflow there and are not the signs of the exact determinants (C06 holds for validated coordinates only);
+       locate / get_weights accept such positions without validation -- not compared (witness: report of task M7) *)
+    if negb (fst (expected_validation x y) =? K_ok)%Z then [] else
+    match decode_points_e (coord_bits p ++ [x; y]), weight_vertices (Z.to_nat n) rest with
+    | Some (allp, em), Some got =>
+        let pts := firstn (nV p) allp in
+        match skipn (nV p) allp with
+        | [q] =>
+            let dd := dcel_of_obs p in
+            let fuel := 2 * nH p + 10 in
+            [(T_corr, existsb (fun loc => match (if natural then nn_weight_vertices pts fuel dd q loc else bary_weight_vertices dd loc) with
+                                          | Some vs => nat_list_eqb vs got
+                                          | None => false end) (weight_loc_candidates c p pts allp em dd q))]
+        | _ => [(T_parse, false)]
+        end
+    | _, _ => []
+    end
+  | _, _ => []
+  end.
+
 Fixpoint run_model_steps (c : cfg) (p : obs) (k : nat) (l : list step) : list verdict :=
   match l with
   | [] => []
@@ -346,6 +388,8 @@ Fixpoint run_model_steps (c : cfg) (p : obs) (k : nat) (l : list step) : list ve
             else if (s_op st =? OP_lineh)%Z then map (fun v => (k, fst v, snd v)) (check_line_model (c_f32 c) true p (s_args st) (s_res st))
             else if (s_op st =? OP_confv)%Z || (s_op st =? OP_confp)%Z || (s_op st =? OP_isc)%Z then
               map (fun v => (k, fst v, snd v)) (check_conf_model (c_f32 c) (s_op st) p (s_args st) (s_res st))
+            else if (s_op st =? OP_nnw)%Z then map (fun v => (k, fst v, snd v)) (check_weights_model c p true (s_args st) (s_res st))
+            else if (s_op st =? OP_bary)%Z then map (fun v => (k, fst v, snd v)) (check_weights_model c p false (s_args st) (s_res st))
             else [])
          else [])
         ++ run_model_steps c p (S k) t
